@@ -6,9 +6,10 @@ import lib
 import fontsynth
 import fontmut
 import featgen
+import passgen
 
-GEN_MODULES = ["Lz4"]
-ASSUMPTIONS = ["theorems: sfnt container as FileFace reads it, Pass::readRanges, cmap lookups after CheckCmapSubtable*, compressed tables and LZ4 (Props/C01.lean, C13, C14) are total / in-bounds for ALL bytes",
+GEN_MODULES = ["Lz4", "Err"]
+ASSUMPTIONS = ["theorems: sfnt container as FileFace reads it, the layout half of Pass::readPass, Pass::readRanges, cmap lookups after CheckCmapSubtable*, compressed tables and LZ4 (Props/C01.lean, C13, C14) are total / in-bounds for ALL bytes",
                "the rest of the loader (Silf, Pass, Code, Glat/Gloc, Feat/Sill/name, queries, destruction) is decided on the implementation under ASan/UBSan/LSan with mutated and structurally hostile fonts - a finite exploration, not a theorem"]
 TRUSTED = ["hand-written model GrVerif/Model/Loader.lean tied by correspondence", "sanitizers as the oracle for memory safety", "tools/fontmut.py, tools/fontsynth.py, tools/featgen.py"]
 
@@ -47,6 +48,22 @@ def ranges_line(r):
         b = r.choice([a, a + 1, a + 2, ng - 1, ng, ng + 1, a - 1 if a else 0])
         bs += struct.pack(">HHH", a & 0xFFFF, b & 0xFFFF, r.randrange(0, nc + 1))
     return "ranges %d %d %d %s" % (ng, nc, nr, bs.hex() or "-")
+
+
+def pass_same(i, m):
+    """the model covers the layout, readRanges, the rule map and readStates, not the code loader and the rule records: what the
+    harness reports must be what the model says about the stage at which the engine stopped"""
+    if i == "later":
+        return m.startswith("ok ")
+    if i == "ranges":
+        return m.startswith("ok ") and " R:E51 " in m
+    if i == "rulemap":
+        return m.startswith("ok ") and " R:E51 " not in m and m.endswith(" M:E52")
+    if i.startswith("states "):
+        return m.startswith("ok ") and " R:E51 " not in m and " S:%s " % i.split()[1] in m and not m.endswith(" M:E52")
+    if i.startswith("ok "):
+        return m.startswith(i) and ("M:E" not in m) and " R:E" not in m and " S:E" not in m
+    return i == m
 
 
 def comp_holds(l, i):
@@ -109,6 +126,26 @@ def run(ctx):
         lib.correspond(ctx, res, "h_ldr", "loader", lines, comp_holds, exe_args=[str(scratch)], per_chunk=500,
                        classify=lambda l, i: l.split()[0] + ":" + ("rejected" if i in ("noface", "badrange") else "fault" if i.startswith(("fault", "CRASH")) else "accepted"),
                        rule="loader components: random sfnt containers (0..60 directory entries, offsets/lengths at and beyond the end of the file, truncated files, wrong scaler) with 6 table requests each; Pass::readRanges with ranges at, one past and two past the glyph count, overlapping and inverted ranges")
+        # the layout half of Pass::readPass on passes of shipped and synthesised fonts, intact and mutated (header numbers, array
+        # lengths, code pointers, flags, sub-table base, truncation), against the Silf/Face of two base fonts (one of them with
+        # collision passes allowed); the passes go on into readRanges / readRules / the code loader / readStates under ASan
+        pool = passgen.pass_pool(r, lib.REPO / "tests" / "fonts", 20 if q else 200)
+        hp = lib.build_harness("h_pass")
+        for bf in ("Padauk.ttf", "AwamiNastaliq-Regular.ttf"):
+            bfp = str(lib.REPO / "tests" / "fonts" / bf)
+            cok = {pt: lib.run_lines([hp, bfp], ["collok %d" % pt])[0] for pt in (1, 2, 3, 4)}
+            pl = []
+            for k in range(1500 if q else 60000):
+                sb, pb = r.choice(pool)
+                if k % 6:
+                    sb, pb = passgen.mutate_pass(r, pb, sb)
+                    if r.random() < 0.3:
+                        sb, pb = passgen.mutate_pass(r, pb, sb)
+                pt = r.choice([1, 2, 3, 4])
+                pl.append("pass %d %d %s %s" % (sb, pt, cok[pt], pb.hex() or "-"))
+            lib.correspond(ctx, res, "h_pass", "loader", pl, comp_holds, exe_args=[bfp], per_chunk=200, same=pass_same,
+                           classify=lambda l, i: "pass:" + ("fault" if i.startswith(("fault", "CRASH")) else i.split()[0]),
+                           rule="Pass::readPass: %d passes of shipped and synthesised fonts, intact and mutated, loaded with the Silf/Face of %s; the layout result (error code or the header numbers) must be the model's; what follows the layout runs under ASan" % (len(pool), bf))
         exe = lib.build_harness("h_seg")
         fonts, hl, meta = [], [], []
 
@@ -196,8 +233,9 @@ def replay(ctx, obj):
         scratch.mkdir(parents=True, exist_ok=True)
         try:
             for it in ([obj] if "line" in obj else obj.get("first", [])):
-                it["exe_args"] = [str(scratch)]
-            return lib.replay_lines(ctx, obj, {"loader": comp_holds})
+                if it.get("harness") != "h_pass":        # (h_pass keeps the base font it was run with)
+                    it["exe_args"] = [str(scratch)]
+            return lib.replay_lines(ctx, obj, {"loader": comp_holds}, same=lambda i, m: pass_same(i, m) if any(it.get("harness") == "h_pass" for it in ([obj] if "line" in obj else obj.get("first", []))) else i == m)
         finally:
             shutil.rmtree(scratch, ignore_errors=True)
     print(str(obj)[:2000])
